@@ -20,7 +20,7 @@ DEADLINE = 300
 def cases(tier, seed):
     if tier == "quick":
         return std_cases(seed, "C02", 12000, [("rand", 4), ("gadget", 3), ("inputs", 2), ("dense-neg", 1), ("rand-wide", 1)], 8, exh2=True, models_nmax=9)
-    return std_cases(seed, "C02", 120000, [("rand", 4), ("gadget", 3), ("inputs", 2), ("dense-neg", 1), ("rand-wide", 1), ("overlap-maa", 0.2)], 9, exh2=True, models_nmax=10)
+    return std_cases(seed, "C02", 60000, [("rand", 4), ("gadget", 3), ("inputs", 2), ("dense-neg", 1), ("rand-wide", 1), ("overlap-maa", 0.2)], 9, exh2=True, models_nmax=10)
 
 
 def gate(agg):
